@@ -41,6 +41,8 @@ VARIANTS: List[Tuple[str, str, str, str, str, Tuple[str, ...]]] = [
     (S, 'storyswap-same-index', 'EAStorySwap.merge', 'ro.base_tag[story2_index] = story1', 'ro.base_tag[story1_index] = story1', ('C01',)),
     (S, 'itemswap-remove-insert', 'EAItemSwap.merge', 'story[item1_index] = item2\n        story[item2_index] = item1',
      'remove_node(parent=story, node=item1)\n        insert_node(parent=story, node=item1, index=item2_index)', ('C02',)),
+    (S, 'remove_node-noop', 'utils.xml:remove_node', 'parent.remove(node)', 'pass', ('C01', 'C02')),
+    (S, 'eaitemdelete-keeps-item', 'EAItemDelete.merge', 'remove_node(parent=story, node=item)', 'pass', ('C02',)),
     (S, 'find_child-index-plus-one', 'utils.xml:find_child', 'return (child, i)', 'return (child, i + 1)', ('C01', 'C02')),
     (S, 'iteminsert-end-computed-on-ro', 'ItemInsert.merge', 'item_index = len(story)', 'item_index = len(ro.base_tag)', ('C02',)),
     (S, 'itemdelete-wrong-parent', 'ItemDelete.merge', "find_child(parent=story, child_tag='item', id=item.id)", "find_child(parent=ro.base_tag, child_tag='item', id=item.id)", ('C02', 'C03')),
@@ -163,6 +165,7 @@ VARIANTS: List[Tuple[str, str, str, str, str, Tuple[str, ...]]] = [
     (T, 'iteminsert-local-alias', 'ItemInsert.merge', '        if self.item.id is None:', '        target_id = self.item.id\n        if target_id is None:', ('C02', 'C03')),
     (T, 'eastoryreplace-story-local', 'EAStoryReplace.merge', "        story, story_index = find_child(parent=ro.base_tag, child_tag='story', id=self.story.id)",
      "        wanted = self.story.id\n        story, story_index = find_child(parent=ro.base_tag, child_tag='story', id=wanted)", ('C01', 'C03', 'C05')),
+    (T, 'add-guard-through-completed', 'RunningOrder.__add__', "if self.xml.find('mosromgrmeta') is None:", 'if not self.completed:', ('C07', 'C09', 'C14')),
     (T, 'running-order-completed-negated-form', 'RunningOrder.completed', "return self.xml.find('mosromgrmeta') is not None", "return not self.xml.find('mosromgrmeta') is None", ('C07',)),
     (T, 'story-items-loop-form', 'Story.items',
      "        return [\n            Item(item_tag)\n            for item_tag in self.xml.findall('item')\n        ]",
